@@ -1,8 +1,42 @@
-(* C12 — pin on the copy made by without_isolated (history theorem in Proofs/C12Main.v to follow). *)
+(* C12 — secondary-structure objects are pure.  Property theorems only. *)
 From Coq Require Import String Ascii ZArith List Bool Arith.
-From RV Require Import Base.Val Gen.Common Model.Bpseq Model.Obj.
+From RV Require Import Base.Val Gen.Common Model.Bpseq Model.Elements Model.Obj Proofs.C12Main.
 Import ListNotations.
 
+(* pin: without_isolated edits fresh Entry objects, never the receiver's *)
 Lemma C12_pin_fresh_copy : isolated_copy_fresh = true.
 Proof. reflexivity. Qed.
 Print Assumptions C12_pin_fresh_copy.
+
+(* one step: whatever the state reached so far (related to the pure object list), the machine gives the pure answer
+   and stays related — in particular no operation changes what any existing object represents *)
+Theorem C12_step : forall dbo, isolated_copy_fresh = true -> forall s ps k o,
+    rel dbo s ps ->
+    let '(s', a) := step dbo s k o in
+    let '(ps', a') := pure_step dbo ps k o in
+    a = a' /\ rel dbo s' ps'.
+Proof. exact step_refines. Qed.
+Print Assumptions C12_step.
+
+(* every finite call sequence over the nine operations, including calls on derived objects: each answer equals the answer
+   of the pure function on the original entries (for every dot-bracket oracle, i.e. whatever the MILP path answers) *)
+Theorem C12_history : forall dbo, isolated_copy_fresh = true -> forall b h,
+    run dbo (init b) h = pure_run dbo [b] h.
+Proof. exact history_pure. Qed.
+Print Assumptions C12_history.
+
+(* a structure without isolated pairs is returned as it is *)
+Theorem C12_without_isolated_identity : forall b, iso_positions b = [] -> without_isolated b = b.
+Proof. exact no_iso_identity. Qed.
+Print Assumptions C12_without_isolated_identity.
+
+(* non-vacuity: the design's witness ((..)).(...) — a stem of length 2 and an isolated pair — through the history
+   [without_isolated; str] *)
+Example C12_nonvacuous :
+  let b := map (fun x => {| idx := fst x; nt := "A"%char; pair := snd x |})
+               [(1,6);(2,5);(3,0);(4,0);(5,2);(6,1);(7,0);(8,12);(9,0);(10,0);(11,0);(12,8)] in
+  let dbo := fun b0 => match fcfs b0 with Ok s => s | Raise _ => [] end in
+  iso_positions b = [7; 11] /\
+  run dbo (init b) [(0, OWithoutIsolated); (0, OStr); (1, OStr)] = pure_run dbo [b] [(0, OWithoutIsolated); (0, OStr); (1, OStr)] /\
+  map pair (without_isolated b) = [6;5;0;0;2;1;0;0;0;0;0;0].
+Proof. vm_compute. repeat split; reflexivity. Qed.
